@@ -290,7 +290,7 @@ def lineResult (st : PState) (mountID parentID stDev root mp opts fstype src : B
     (o : OvlOpts) : PState :=
   { m := { list := st.m.list ++ [⟨o.lower, unescape mp, o.upper, o.work, fstype, opts,
              !shadowingFsTypes.contains fstype && st.shadow.contains parentID, stDev,
-             unescape root⟩],
+             unescape root, mountID, parentID⟩],
            devices := addDevice st.m.devices stDev (unescape src) (unescape root) (unescape mp) },
     shadow := if shadowingFsTypes.contains fstype || st.shadow.contains parentID
               then mountID :: st.shadow else st.shadow }
